@@ -90,7 +90,7 @@ def _check_on(S, case):
         ("dft_recursive", D.dft_recursive, D.idft_recursive),
         ("dft_iterative", D.dft_iterative, D.idft_iterative),
     ):
-        with trav.neighbor_budget(4 * n + 8):
+        with trav.neighbor_budget(4 * (n + 2) * (n + 2) + 32):
             try:
                 out = S.idx(trav.bounded_list(gen(S.uni, S.vs[S.start], **S.kw()), n + 1, name + " generator"))
             except NotImplementedError:
@@ -100,7 +100,7 @@ def _check_on(S, case):
         elif verdict == "ok":
             require(out != "NIE", "unexpected-NotImplementedError", f"{name} raised NotImplementedError")
         if out == "NIE":
-            with trav.neighbor_budget(4 * n + 8):
+            with trav.neighbor_budget(4 * (n + 2) * (n + 2) + 32):
                 try:
                     fn(S.uni, S.vs[S.start], **S.kw())
                 except NotImplementedError:
@@ -111,13 +111,13 @@ def _check_on(S, case):
         require(len(set(out)) == len(out), "vertex-repeated", f"{name}: {out}")
         require(out and out[0] == S.start, "start-not-first", f"{name}: {out} start={S.start}")
         require(set(out) == R, "reach-set-mismatch", f"{name}: visited {sorted(out, key=str)}, reachable set is {sorted(R)} (d={S.d} u={S.u} via={case['via']} uni={case['uni']})")
-        with trav.neighbor_budget(4 * n + 8):
+        with trav.neighbor_budget(4 * (n + 2) * (n + 2) + 32):
             lst = S.idx(fn(S.uni, S.vs[S.start], **S.kw()))
         require(lst == out, "generator-list-disagree", f"{name}: list {lst} generator {out}")
         # a partly consumed generator must not be disturbed by other traversals run in between
         k = case.get("take", 0)
         if k and len(out) > k:
-            with trav.neighbor_budget(12 * n + 24):
+            with trav.neighbor_budget(12 * (n + 2) * (n + 2) + 32):
                 g = gen(S.uni, S.vs[S.start], **S.kw())
                 head = [next(g) for _ in range(k)]
                 for other in (B.bft, D.dft_recursive, D.dft_iterative):
@@ -128,7 +128,7 @@ def _check_on(S, case):
             mixed = S.idx(head + tail)
             require(mixed == out, "interleaved-generator-disturbed", f"{name}: {k} items, other traversals, then the rest gives {mixed}; uninterrupted {out}")
         if S.rf is not None:
-            with trav.neighbor_budget(4 * n + 8):
+            with trav.neighbor_budget(4 * (n + 2) * (n + 2) + 32):
                 try:
                     flt = S.idx(fn(S.uni, S.vs[S.start], **S.kw(res=True)))
                     fltg = S.idx(trav.bounded_list(gen(S.uni, S.vs[S.start], **S.kw(res=True)), n + 1, name))
